@@ -223,6 +223,24 @@ func (c *codecImpl) Exec(line string) string {
 			return "bad-op"
 		}
 		return c.swap(uint32(ch), k, w[3], val)
+	case w[0] == "readnum" && len(w) == 2:
+		data, ok := unhex(w[1])
+		if !ok || len(data) == 0 {
+			return "bad-op"
+		}
+		ri, ru := readerAny(data)
+		return fmt.Sprintf("int=%s uint=%s", ri, ru)
+	case w[0] == "loadfrom" && len(w) == 2:
+		data, ok := unhex(w[1])
+		if !ok {
+			return "bad-op"
+		}
+		nb := commit.NewBuffer(8)
+		if _, err := nb.ReadFrom(bytes.NewReader(data)); err != nil {
+			return errClass(err)
+		}
+		c.buf = nb
+		return "ok"
 	case w[0] == "putany" && len(w) == 4:
 		// Buffer.PutAny with an integer of the named Go type
 		idx, e1 := strconv.ParseUint(w[2], 10, 32)
@@ -823,6 +841,26 @@ func wireCases(r *rand.Rand, n int, rep *Report) []Case {
 			lines = append(lines, "readfrom "+hexOf(full[:cut]))
 			rep.count("readfrom-truncated")
 		}
+		// writing goes on after a buffer was read back: the whole buffer, and an empty one (first write in block 0)
+		if i%2 == 0 {
+			lines = append(lines, "new w")
+			for _, p := range puts {
+				lines = append(lines, p.line())
+			}
+			lines = append(lines, "loadfrom "+hexOf(full))
+		} else {
+			var eb bytes.Buffer
+			commit.NewBuffer(8).WriteTo(&eb)
+			lines = append(lines, "new w", "loadfrom "+hexOf(eb.Bytes()))
+		}
+		cur := uint32(r.Intn(3))
+		for _, p := range genPuts(r, 1+r.Intn(4), false, nil) {
+			p.idx = cur + p.idx%40000
+			cur = p.idx
+			lines = append(lines, p.line())
+		}
+		lines = append(lines, "seek", "chunks", "range 0", "range 1", "range 2", "writeto")
+		rep.count("write-after-readfrom")
 		ch := puts[r.Intn(len(puts))].idx >> 14
 		cm := commit.Commit{ID: uint64(1 + r.Int63n(1<<62)), Chunk: commit.Chunk(ch), Updates: []*commit.Buffer{impl.buf, impl.buf}}
 		var cb bytes.Buffer
@@ -835,6 +873,30 @@ func wireCases(r *rand.Rand, n int, rep *Report) []Case {
 			rep.count("commit-readfrom-truncated")
 		}
 		out = append(out, Case{Name: fmt.Sprintf("wire-%d", i), Lines: lines, Features: []string{"wire"}})
+	}
+	return out
+}
+
+// readNumCases: the any-size accessors over edge and random values of each width
+func readNumCases(r *rand.Rand, n int) []Case {
+	var out []Case
+	for k := 0; k < n; k++ {
+		lines := []string{"new a"}
+		for j := 0; j < 10; j++ {
+			w := []int{2, 4, 8}[r.Intn(3)]
+			b := make([]byte, w)
+			r.Read(b)
+			switch r.Intn(4) {
+			case 0:
+				b[0] = []byte{0x7f, 0x80, 0xff, 0x00}[r.Intn(4)]
+			case 1:
+				for i := range b {
+					b[i] = []byte{0x00, 0xff}[r.Intn(2)]
+				}
+			}
+			lines = append(lines, "readnum "+hexOf(b))
+		}
+		out = append(out, Case{Name: fmt.Sprintf("readnum-%d", k), Lines: lines, Features: []string{"wire", "readnum"}})
 	}
 	return out
 }
@@ -999,6 +1061,18 @@ func codecOracle(c Case, out []string) string {
 			if out[i] == "ok" {
 				puts = append(puts, fmt.Sprintf("%s:%s:%s", w[1], w[2], w[4]))
 			}
+		case "readnum":
+			// two's complement / plain reading of 2, 4 or 8 big-endian bytes
+			if data, ok := unhex(w[1]); ok && (len(data) == 2 || len(data) == 4 || len(data) == 8) {
+				u := beU(data)
+				sh := uint(64 - 8*len(data))
+				want := fmt.Sprintf("int=%d uint=%d", int64(u<<sh)>>sh, u)
+				if out[i] != want {
+					return fmt.Sprintf("line %d: the any-size readers give %s for the value %s, its number is %s", i, out[i], w[1], want)
+				}
+			}
+		case "loadfrom":
+			// the scripts load what the current buffer serialises to (or an empty buffer after `new`): same ops
 		case "putany":
 			// the two's-complement bytes of the value at the width PutAny gives the type (8-bit types: 16 bits)
 			if out[i] == "ok" && len(w) == 4 {
